@@ -1,2 +1,53 @@
-/-! Stub driver: the model driver for this property is not built yet. -/
-def main : IO Unit := IO.println "unimplemented"
+import JoblibModel.Store
+import JoblibModel.StoreIO
+import JoblibModel.IOUtil
+/-! Driver for C11 (model `JoblibModel.Store`).
+
+Request: `par ORDER FIRSTLINE SRC0 SRC1 | PRE | PRE … || THREAD | THREAD … || SCHED`
+* `PRE` — processes run one after the other first (syntax of Driver/C05; `-` = none);
+* `THREAD` — the concurrent users (same syntax, no `kill`);
+* `SCHED` — `t.t.t…`: the thread that makes the next system call, one entry per call (`-` = empty).
+Reply: `t:op;t:op;… => STATE | STATE | …` with `STATE` = `ok v<ver>.<arg>` | `ok done` | `raise <Class>` |
+`running@<next op>`; or `bad-op` (malformed, or the schedule names a thread that has finished). -/
+open JoblibModel JoblibModel.Store JoblibModel.StoreIO JoblibModel.IOUtil
+
+def runPre (env : Env) : List String → FS → Option FS
+  | [], fs => some fs
+  | p :: rest, fs =>
+    if p.trimAscii.toString = "-" then runPre env rest fs else
+    match parseProc env p.trimAscii.toString with
+    | some (ps, l) => runPre env rest (runOne env.order ps l fs).2
+    | none => none
+
+def parseEnv (hd : String) : Option Env :=
+  match tokens hd with
+  | ["par", order, fl, s0, s1] => do
+      let o ← parseNames order
+      let f ← fl.toNat?
+      let b0 ← parseHex s0
+      let b1 ← parseHex s1
+      pure ⟨o, f, [b0, b1]⟩
+  | _ => none
+
+def handle (line : String) : String :=
+  match line.trimAscii.toString.splitOn " || " with
+  | [a, b, c] =>
+    match a.splitOn " | " with
+    | hd :: pre =>
+      match parseEnv hd with
+      | some env =>
+        match runPre env pre FS.empty,
+              (b.splitOn " | ").mapM (fun s => (parseProc env s.trimAscii.toString).map (progOf ·.1)),
+              parseNats c.trimAscii.toString with
+        | some fs, some threads, some sched =>
+          match runPar threads fs sched with
+          | some (log, th, _) =>
+            ";".intercalate (log.map fun x => s!"{x.1}:{opToString env.order x.2.1 x.2.2}") ++ " => " ++
+              " | ".intercalate (th.map threadState)
+          | none => "bad-op"
+        | _, _, _ => "bad-op"
+      | none => "bad-op"
+    | [] => "bad-op"
+  | _ => "bad-op"
+
+def main : IO Unit := lineLoop handle
